@@ -552,11 +552,42 @@ def handleN (outer ownerMeta : String) : String :=
       (match o with | .pickle => "" | _ => s!" lock={f none true}")
   | _, _ => "bad-case"
 
+open TraitsVerif.Model.RefLedger in
+/-- `H|kind|T O|i:rs i:rm:j i:add:t i:add:o …`: handlers `0..T-1` on the trait, `T..T+O-1` on the object
+(anytrait); actions of handlers; added handlers get the next free numbers.  Prints the handlers called by a
+first change and by a second one. -/
+def handleH (counts acts : String) : String :=
+  match (words counts).mapM (·.toNat?) with
+  | some [tc, oc] =>
+    let n := tc + oc
+    -- parse actions; `add` allocates ids n, n+1, … in the order the actions are written
+    let rec parse (ws : List String) (next : Nat) (acc : List (Id × HAct)) : Option (List (Id × HAct)) :=
+      match ws with
+      | [] => some acc.reverse
+      | w :: rest =>
+        match w.splitOn ":" with
+        | [i, "rs"] => i.toNat?.bind (fun i => parse rest next ((i, .removeSelf) :: acc))
+        | [i, "rm", j] => match i.toNat?, j.toNat? with
+          | some i, some j => parse rest next ((i, .remove j) :: acc)
+          | _, _ => none
+        | [i, "add", w] => i.toNat?.bind (fun i => parse rest (next + 1) ((i, .add next (w == "t")) :: acc))
+        | _ => none
+    match parse (words acts) n [] with
+    | none => "bad-case"
+    | some table =>
+      let act : Id → HAct := fun h => match table.find? (·.1 = h) with | some p => p.2 | none => .nothing
+      let l0 : Lists := ⟨List.range tc, (List.range oc).map (· + tc)⟩
+      let r1 := dispatch act l0
+      let r2 := dispatch act r1.2
+      s!"calls={showIntList (r1.1.map Int.ofNat)} again={showIntList (r2.1.map Int.ofNat)}"
+  | _ => "bad-case"
+
 def handle (line : String) : String :=
   match (clean line).splitOn "|" with
   | ["P", decls, hist, copies] => handleP decls hist copies
   | ["T", ops] => handleT ops
   | ["R", cfg, ops] => handleR cfg ops
+  | ["H", _, counts, acts] => handleH counts acts
   | ["N", outer, ownerMeta] => handleN outer ownerMeta
   | ["N", outer, ownerMeta, _] => handleN outer ownerMeta
   | ["U", behs, items] => handleU behs items
